@@ -155,14 +155,14 @@ def check_open_alloc(rep, facts, a, inplace_key):
     shape = False
     guard_err = None
     found = pp(idx)
-    if idx[0] == 'okval' and idx[1][0] == 'call' and idx[1][1] == 'core::option::Option::ok_or':
-        inner, errv = idx[1][2]
-        if inner[0] == 'call' and inner[1] == 'core::num::<impl usize>::checked_sub':
-            x, y = inner[2]
-            len_ok = x == ('len', ('param', ctparam))
-            tag_ok = y[0] == 'call' and y[1] == 'Serializable::size' and y[4] and y[4][2] and y[4][2].startswith('aead::AeadTag<')
-            shape = len_ok and tag_ok
-            guard_err = errv
+    from .common import checked_sub_some
+    cs = checked_sub_some(a, facts, idx)
+    if cs is not None:
+        x, y, _cbi, none_errs = cs
+        len_ok = x == ('len', ('param', ctparam))
+        tag_ok = y[0] == 'call' and y[1] == 'Serializable::size' and y[4] and y[4][2] and y[4][2].startswith('aead::AeadTag<')
+        shape = len_ok and tag_ok
+        guard_err = none_errs
     if not shape and idx[0] == 'bin' and idx[1] == 'Sub' and idx[2] == ('len', ('param', ctparam)):
         # explicit comparison + early return, then a plain subtraction
         y = idx[3]
@@ -181,8 +181,7 @@ def check_open_alloc(rep, facts, a, inplace_key):
               'len(ciphertext).checked_sub(AeadTag::size()) with the None case turned into an error (no unchecked subtraction)',
               where(a, a.term_point(sbi)))
     if shape:
-        from .common import hpke_variant
-        rep.check(hpke_variant(guard_err) == 'OpenError', 'R05.5', fn, 'short-input-error', pp(guard_err),
+        rep.check(bool(guard_err) and all(e == ['OpenError'] for e in guard_err), 'R05.5', fn, 'short-input-error', str(guard_err),
                   'a ciphertext shorter than a tag yields OpenError', where(a, a.term_point(sbi)))
 
 
